@@ -219,3 +219,91 @@ Definition obs_eqb (a b : obs) : bool := list_eqb item_eqb (fst a) (fst b) && Bo
 (* short constructors used by the generated cases *)
 Definition US (k v : N) (t : utype) : update := {| u_key := k; u_val := Some v; u_type := t |}.
 Definition DL (k : N) (t : utype) : update := {| u_key := k; u_val := None; u_type := t |}.
+
+(* ------------------------------------------------------------------------------------------------
+   dropLockAndSendBatch: one pulled batch becomes a sequence of sink callbacks - maximal runs of updates
+   as one OnUpdates(slice), each status as its own OnStatusUpdated (updates before a status are flushed first). *)
+Inductive cb := CbUpdates (us : list update) | CbStatus (s : status).
+
+Definition flush (acc : list update) : list cb :=
+  match acc with [] => [] | _ => [CbUpdates (rev acc)] end.
+
+Fixpoint send_batch_acc (acc : list update) (its : list item) : list cb :=
+  match its with
+  | [] => flush acc
+  | IUpd u :: r => send_batch_acc (u :: acc) r
+  | IStatus s :: r => flush acc ++ CbStatus s :: send_batch_acc [] r
+  end.
+Definition send_batch (its : list item) : list cb := send_batch_acc [] its.
+
+Definition cb_items (c : cb) : list item :=
+  match c with CbUpdates us => map IUpd us | CbStatus s => [IStatus s] end.
+
+(* sendNextBatchToSinkLockHeld / sendNextBatchToSinkNoBlock: batches of `bs` (the code's const batchSize = 100)
+   until the queue is empty.  Every non-empty batch removes at least one item, so length (q st) rounds suffice. *)
+Fixpoint drain_loop (bs : nat) (fuel : nat) (st : state) : list (list item) * state :=
+  match fuel with
+  | O => ([], st)
+  | S f =>
+      match q st with
+      | [] => ([], st)
+      | _ => let (its, st') := pull bs st in
+             let (bss, st'') := drain_loop bs f st' in (its :: bss, st'')
+      end
+  end.
+Definition drain (bs : nat) (st : state) : list (list item) * state := drain_loop bs (length (q st)) st.
+
+(* the same stream cut into batches of bs: what the callbacks of a drain look like as a function of the items *)
+Fixpoint chunks_fuel (fuel bs : nat) (l : list item) : list (list item) :=
+  match fuel with
+  | O => []
+  | S f => match l with
+           | [] => []
+           | _ => firstn bs l :: chunks_fuel f bs (skipn bs l)
+           end
+  end.
+Definition chunks (bs : nat) (l : list item) : list (list item) := chunks_fuel (length l) bs l.
+Definition callbacks_of (bs : nat) (its : list item) : list cb := flat_map send_batch (chunks bs its).
+
+(* ------------------------------------------------------------------------------------------------
+   typha/pkg/syncclient/sync_client.go as the producer of the buffer's input: what SyncerClient.Start's
+   reconnect goroutine and SyncerClient.loop call on their callbacks, as a function of what happens on the wire.
+     EvConnect : a connection is up and loop() starts            -> OnStatusUpdated(ResyncInProgress)
+     EvStatus  : MsgSyncStatus received                          -> OnStatusUpdated(s)
+     EvKVs     : MsgKVs received                                 -> OnUpdates(kvs)
+     EvDrop    : the connection fails, loop() returns, the reconnect goroutine runs
+                                                                 -> OnTyphaConnectionRestarted(); OnStatusUpdated(WaitForDatastore)
+     EvPull    : (not the client) the consumer side takes a batch
+   `ord` arguments: map iteration order parameter of the corresponding status call (see on_status). *)
+Inductive cev :=
+| EvConnect (ord : list key)
+| EvStatus (s : status) (ord : list key)
+| EvKVs (us : list update)
+| EvDrop (ord : list key)
+| EvPull (n : nat).
+
+Definition client_op (e : cev) : list op :=
+  match e with
+  | EvConnect ord => [OpStatus ResyncInProgress ord]
+  | EvStatus s ord => [OpStatus s ord]
+  | EvKVs us => [OpUpdates us]
+  | EvDrop ord => [OpRestart; OpStatus WaitForDatastore ord]
+  | EvPull n => [OpPull n]
+  end.
+Definition client_ops (evs : list cev) : list op := flat_map client_op evs.
+
+(* boolean equalities used by the correspondence *)
+Definition cb_eqb (a b : cb) : bool :=
+  match a, b with
+  | CbUpdates x, CbUpdates y => list_eqb update_eqb x y
+  | CbStatus x, CbStatus y => status_eqb x y
+  | _, _ => false
+  end.
+Definition op_eqb (a b : op) : bool :=
+  match a, b with
+  | OpRestart, OpRestart => true
+  | OpStatus s o, OpStatus s' o' => status_eqb s s' && list_eqb N.eqb o o'
+  | OpUpdates x, OpUpdates y => list_eqb update_eqb x y
+  | OpPull n, OpPull m => Nat.eqb n m
+  | _, _ => false
+  end.
